@@ -410,6 +410,17 @@ class ExprEmitter(ExpressionWriter):
             self.visit(node.arg)
         self.put(")")
 
+    def visit_CondExprNode(self, node):
+        # Cython's CodeWriter emits `a if c else b` bare, which loses the grouping
+        # inside a larger expression (`x - (1 if c else 0)`)
+        self.put("(")
+        self.visit(node.true_val)
+        self.put(" if ")
+        self.visit(node.condition)
+        self.put(" else ")
+        self.visit(node.false_val)
+        self.put(")")
+
     def visit_PrimaryCmpNode(self, node):
         self.put("(")
         self.visit(node.operand1)
